@@ -194,7 +194,11 @@ def shape_case(case):
     """auto_fill on/off x includes unset / explicitly empty / given x libs
     unset / explicitly empty / given, in a project that installs a library
     and a header directory"""
-    auto, imode, lmode, prefix = case
+    auto, imode, lmode, prefix = case[:4]
+    # order 'dep-first': the library is first pulled in as the install
+    # dependency of another (shared) library and then installed explicitly
+    order = case[4] if len(case) > 4 else 'plain'
+    shape = list(case[:3]) + ([order] if order != 'plain' else [])
     root = scratch('verif-c17s-')
     try:
         src = os.path.join(root, 'src')
@@ -212,10 +216,14 @@ def shape_case(case):
             args.append('libs=[%s]' % ('lib2' if lmode == 'given' else ''))
         open(os.path.join(src, 'build.bfg'), 'w').write(
             "project('p', version='1.0')\n"
-            "lib = static_library('foo', ['f.c'])\n"
+            "lib = %s('foo', ['f.c'])\n"
             "lib2 = static_library('bar', ['f.c'])\n"
-            "install(lib, header_directory('hdir', include='*.h'))\n"
-            "pkg_config(%s)\n" % ', '.join(args))
+            "%s"
+            "install(%slib, header_directory('hdir', include='*.h'))\n"
+            "pkg_config(%s)\n" % ((
+                ('static_library', '', '') if order == 'plain' else
+                ('shared_library', "outer = shared_library('outer', ['f.c'], "
+                 "libs=[lib])\n", 'outer, ')) + (', '.join(args),)))
         env = tool_env({'CC': os.path.join(BIN, 'stubcc'),
                         'AR': os.path.join(BIN, 'stubar')})
         bld = os.path.join(root, 'build')
@@ -225,7 +233,7 @@ def shape_case(case):
         if rc != 0:
             return [{'ev': 'Flags', 'form': 'configure', 'which': 'cflags',
                      'exit': rc, 'out': [], 'expected': [], 'exact': True,
-                     'absent': [], 'note': out[-300:], 'shape': case[:3]}]
+                     'absent': [], 'note': out[-300:], 'shape': shape}]
         fill = auto is True
         rsrc = os.path.realpath(src)
         e2 = dict(env)
@@ -247,11 +255,13 @@ def shape_case(case):
             evs.append({'ev': 'Flags', 'form': form, 'which': 'cflags',
                         'exit': r1, 'out': syms(o1.replace('\n', ' ')),
                         'expected': [syms(x) for x in exp], 'exact': True,
-                        'absent': [], 'shape': case[:3]})
+                        'absent': [], 'shape': shape})
             if lmode == 'given':
                 want, absent = ['-lbar'], ['-lfoo']
             elif lmode == 'unset' and fill:
                 want, absent = ['-lfoo'], ['-lbar']
+                if order != 'plain':      # (in the order of install())
+                    want.insert(0, '-louter')
             else:
                 want, absent = [], ['-lfoo', '-lbar']
             r2, o2 = run(['pkg-config', '--libs', name], env=e2, cwd=bld)
@@ -259,7 +269,7 @@ def shape_case(case):
                         'exit': r2, 'out': syms(o2.replace('\n', ' ')),
                         'expected': [syms(x) for x in want], 'exact': False,
                         'absent': [syms(x) for x in absent],
-                        'shape': case[:3]})
+                        'shape': shape})
         return evs
     finally:
         shutil.rmtree(root, ignore_errors=True)
@@ -350,7 +360,9 @@ def shape_cases():
             for i in ('unset', 'empty', 'given')
             for l in ('unset', 'empty', 'given')
             for p in ('/usr/local',)] + [(True, 'empty', 'empty',
-                                          '/opt/my app')]
+                                          '/opt/my app')] + [
+        (a, i, l, '/usr/local', 'dep-first') for a in (None, True)
+        for i in ('unset', 'given') for l in ('unset', 'given')]
 
 
 def flag_cases(ck):
@@ -462,7 +474,9 @@ def main(argv):
                                             special or chars)
             if 'shape' in e:
                 key = 'C17:shape:%s:%s:%s:auto=%s,includes=%s,libs=%s' % (
-                    (info[0], e['form'], e['which']) + tuple(e['shape']))
+                    (info[0], e['form'], e['which']) + tuple(e['shape'][:3]))
+                if len(e['shape']) > 3:
+                    key += ',order=' + e['shape'][3]
             what = '%s %s: expected %r got %r %s' % (
                 e['form'], e['which'], [unsyms(x) for x in e['expected']],
                 unsyms(e['out']), e.get('note', ''))
